@@ -289,8 +289,72 @@ def run_c17(ctx):
                 "unknown variants preserved; token amounts across CBOR, decimal string and JSON; plus prefixes, trailing data and bit flips of every canonical vector. distinct = distinct vectors")
 
 
+def run_c10(ctx):
+    quick = ctx.tier == "quick"
+    r = ctx.tlc(SPEC, "Schema.tla", "Schema.cfg", workers=8, timeout=1800)
+    ctx.exhaustive = True
+    vecs = [json.loads(s) for s in r.replays]
+    batch = [v for v in vecs if v["kind"] != "bad_bytes"]
+    hostile = [v for v in vecs if v["kind"] == "bad_bytes"]
+    s1, _ = replay_behaviours(ctx, "base", "schema-replay", [json.dumps(v) for v in batch], "schema")
+    hist = {}
+    for k, n in s1["by_action"].items():
+        hist[k.split(":")[0]] = hist.get(k.split(":")[0], 0) + n
+    ctx.extra["vector_histogram"] = hist
+    ctx.extra["type_constructors_covered"] = sorted(set(k.split(":")[1] for k in s1["by_action"]))
+    if hist.get("roundtrip", 0) < 3000 or hist.get("bad_json", 0) < 15 or len(ctx.extra["type_constructors_covered"]) < 30:
+        raise ToolError("vacuous run: %s" % hist)
+    # bytes that encode no value (incl. hostile lengths): one process each under an address-space limit
+    exe = os.path.join(vlib.VERIF, "harness", "base", "target", "release", "vh-base")
+    def lim():
+        resource.setrlimit(resource.RLIMIT_AS, (3 << 30, 3 << 30))
+    for i, v in enumerate(hostile):
+        f = os.path.join(ctx.work, "one_%d.json" % i)
+        with open(f, "w") as fh:
+            fh.write(json.dumps(v))
+        ctx.note_case(v)
+        ctx.traces += 1
+        ctx.evaluations += 1
+        try:
+            p = subprocess.run([exe, "schema-replay", "--one", f], capture_output=True, text=True, timeout=120, preexec_fn=lim)
+        except subprocess.TimeoutExpired:
+            ctx.violation("bytes -> JSON under schema %s did not terminate" % json.dumps(v["t"])[:100], {"kind": "schema_one", "vector": v})
+            continue
+        out = p.stdout.strip().splitlines()
+        if p.returncode != 0 or not out:
+            ctx.violation("bytes -> JSON under schema %s on %d input bytes killed the process (%s)" % (json.dumps(v["t"])[:100], len(json.dumps(v["b"])), (p.stderr.strip().splitlines() or ["?"])[0][:120]),
+                          {"kind": "schema_one", "vector": v}, signature="schema-alloc")
+            continue
+        res = json.loads(out[-1])
+        if not res.get("ok"):
+            ctx.violation("schema %s: %s" % (json.dumps(v["t"])[:100], res.get("what")), {"kind": "schema_one", "vector": v, "detail": res})
+    ctx.extra["bad_bytes_vectors"] = len(hostile)
+    v = json.loads(json.dumps(next(x for x in batch if x["kind"] == "roundtrip" and x["t"][0] == "Pair")))
+    v["b"] = v["b"] + [["b", [1]]]
+    inp = os.path.join(ctx.work, "canary.ndjson")
+    outp = os.path.join(ctx.work, "canary.res")
+    write_ndjson(inp, [v])
+    ctx.harness("base", ["schema-replay", inp, outp])
+    if not [x for x in read_ndjson(outp) if not x.get("summary")]:
+        raise ToolError("canary: altered expected bytes not flagged")
+    ctx.extra["canary"] = "altered expected encoding flagged"
+    ctx.samples = [{"kind": "schema triple (type, JSON, bytes)", "vector": next(x for x in batch if x["t"][0] == "Enum")},
+                   {"kind": "schema triple", "vector": next(x for x in batch if x["t"][0] == "Map")}]
+    ctx.assumptions += [
+        "leaf types with text forms (timestamps, durations, amounts) are taken from a fixed table of (JSON, bytes) pairs; their text forms are C16's concern; account addresses (base58) are not covered",
+        "nesting deeper than 32 and more than 2^16 zero-width elements are outside the property",
+        "module schema versions V0-V3 / base64 framing are not yet specified",
+    ]
+    ctx.rule = ("the closure of 40 leaf triples (type, JSON, bytes) under the constructors pair, list (4 size lengths), set, map, array, struct (named/unnamed/none), enum, tagged enum to nesting depth 3 "
+                "(about 10^4 triples): JSON -> bytes and bytes -> JSON must both hold byte-exactly, and the binary form of every schema type must equal EncType and read back; JSON values a type does not "
+                "accept must be refused; bytes that encode no value (undefined tags, invalid UTF-8 and names, over-long LEB128, lengths far beyond the content) must be refused without exhausting memory "
+                "(one process each). distinct = distinct triples")
+
+
 def run(ctx):
     ctx.build("base")
+    if ctx.prop == "C10":
+        return run_c10(ctx)
     if ctx.prop == "C17":
         return run_c17(ctx)
     if ctx.prop == "C05":
